@@ -56,7 +56,7 @@ func c09Run(s *c09Scn, segName string) verdict {
 	}
 
 	sess, err := newNcSession(ncConfig{adv10: s.Adv10, adv11: s.Adv11, preferred: pref, echo: s.Echo, seg: faultSegs[segName], seed: int64(s.idx),
-		timeout: 400 * time.Millisecond, hello: hello, reply: ncReplyOK})
+		timeout: 3 * time.Second, hello: hello, reply: ncReplyOK})
 	if err != nil {
 		fail(&v, "C09:new-error", "%v", err)
 
